@@ -11,6 +11,12 @@ package reedsolomon
 // AllocAligned allocates 'shards' slices, with 'each' bytes.
 // Each slice will start on a 64 byte aligned boundary.
 func AllocAligned(shards, each int) [][]byte {
+	if shards < 0 {
+		shards = 0
+	}
+	if each < 0 {
+		each = 0
+	}
 	eachAligned := ((each + 63) / 64) * 64
 	total := make([]byte, eachAligned*shards+63)
 	// We cannot do initial align without "unsafe", just use native alignment.
